@@ -212,6 +212,16 @@ def parse_voronoi_tok(t):
     if t.i < len(t.t) and t.peek() == 'META':
         t.next()
         out['meta'] = {'anchor': t.v3(), 'width': t.v3(), 'dim': t.int(), 'periodic': t.int()}
+    if t.i < len(t.t) and t.peek() == 'ACC':
+        t.next()
+        nc = t.int()
+        fi, fc = [], []
+        for _ in range(nc):
+            k = t.int()
+            fi.append([t.int() for _ in range(k)])
+            fc.append(t.int())
+        nf = t.int()
+        out['acc'] = {'face_indices': fi, 'faces_count': fc, 'pb': [t.next() for _ in range(nf)]}
     out['tokens'] = t.t[start:t.i]
     return out
 
@@ -398,3 +408,24 @@ def gen_on_wall(inp, i):
         if g[ax] == inp.na[ax] or g[ax] == inp.na[ax] + inp.nw[ax] or g[ax] == up:
             return True
     return False
+
+
+def accessor_problems(v):
+    """derived accessors of a serialised tessellation: `face_indices` = the slice of the connectivity array, `faces()` yields as
+    many faces, `is_periodic` <=> the face carries a shift, `is_boundary` <=> it has no right generator"""
+    probs = []
+    acc = v.get('acc')
+    if not acc:
+        return probs
+    for i, c in enumerate(v['cells']):
+        if i < len(acc['face_indices']):
+            if acc['face_indices'][i] != v['conn'][c.off:c.off + c.cnt]:
+                probs.append('face_indices of cell %d is %s, its slice of the connectivity array is %s' % (i, acc['face_indices'][i], v['conn'][c.off:c.off + c.cnt]))
+            if acc['faces_count'][i] != c.cnt:
+                probs.append('faces() of cell %d yields %d faces, face_count is %d' % (i, acc['faces_count'][i], c.cnt))
+    for j, f in enumerate(v['faces']):
+        if j < len(acc['pb']):
+            want = ('1' if f.shift is not None else '0') + ('1' if f.right is None else '0')
+            if acc['pb'][j] != want:
+                probs.append('face %d (left %s right %s shift %s): is_periodic/is_boundary = %s, expected %s' % (j, f.left, f.right, 'yes' if f.shift is not None else 'no', acc['pb'][j], want))
+    return probs
